@@ -314,7 +314,7 @@ func (g *c02Gen) block(depth int) string {
 		}
 		return fmt.Sprintf("<pre%s>%s\n  %s</pre>", g.attrs(), g.text(), g.text())
 	case 11:
-		return fmt.Sprintf(`<svg%s viewBox="0 0 10 10"><circle cx="5" cy="5" r="4"></circle><path d="M0 0L1 1" fill="%s"></path><text>%s</text></svg>`, g.attrs(), g.attrVal(), g.text())
+		return fmt.Sprintf(`<svg%s viewBox="0 0 10 10"><circle cx="5" cy="5" r="4"></circle><path d="M0 0L1 1" fill="%s"></path><use xlink:href="#i%d" xml:lang="en"></use><text>%s</text></svg>`, g.attrs(), g.attrVal(), g.r.Intn(3), g.text())
 	case 12:
 		return fmt.Sprintf("<blockquote%s><p>%s</p></blockquote>", g.attrs("cite"), g.inline(1))
 	case 13:
